@@ -26,7 +26,7 @@ def monitor(case):
                 if (st["cur"].fees - st["prev"].fees) % lcore.M64 != paid % lcore.M64:
                     return idx, "feesCollected grew by %d but the group's members paid %d" % (st["cur"].fees - st["prev"].fees, paid)
         elif kind == "endblock":
-            m = re.match(r"end payset=(\d+) ctr=(\d+) all=(\d+)$", out)
+            m = re.match(r"end payset=(\d+) ctr=(\d+) all=(\d+)(?: load=\d+)?$", out)
             if not m:
                 return idx, "the real endOfBlock / validation failed on a block built from accepted groups: " + out[:200]
             last_all = int(m.group(3))
